@@ -3,6 +3,7 @@ import PyTrie.Lemmas.WalkConcrete
 import PyTrie.Lemmas.ReadPartial
 import PyTrie.Lemmas.VersionsConsistent
 import PyTrie.Lemmas.WalkDRefines
+import PyTrie.Lemmas.WalkDRun
 import PyTrie.Props.C08
 /-! # C09 — a fog-guided walk finds everything, even while the trie changes
 
@@ -201,5 +202,29 @@ theorem raw_cache_invariant (H : Bytes → Bytes) (db : Db) (t : Node) (hc : Can
     (s : CState) (hcache : CacheOkD H db s.cache) (p : Path) (s' : CState) (h : cstep t s p = some s') :
     CacheOkD H db s'.cache :=
   cstep_cacheOkD H db t hc hst s hcache p s' h
+
+/-- **one step with the caller's retry never raises** on a database complete for the current version, whatever stale
+    parents the cache holds (`except MissingTraversalNode: cache.delete(prefix)` and again, from the root — `cstepDR`): it is
+    the tree-level step, taken with the cache as it is or after dropping the entry for the prefix -/
+theorem raw_step_with_retry (H : Bytes → Bytes) (hlen : ∀ b, (H b).length = 32) (db : Db) (root : Hash) (t : Node) (hc : Canon t)
+    (hroot : RootPartial H db root t) (hrootIn : isBlank t = false → (lookup db root).isSome) (hst : StoredD H db t)
+    (s : CState) (hcache : CacheOkD H db s.cache) (p : Path) :
+    ∃ s0 : CState, (s0 = s ∨ s0 = { s with cache := Fog.Frontier.delete s.cache p }) ∧
+      cstepDR H db root (toCD H s) p = .ok ((cstep t s0 p).map (toCD H)) :=
+  cstepDR_complete H hlen db root t hc hroot hrootIn hst s hcache p
+
+/-- **the whole walk at raw level** — root hash and database as they are at each step (the trie may be modified between
+    steps, pruning on or off), `TrieFrontierCache` of raw bodies, the retry on a stale entry —: under `SchedOk` (each step's
+    database is complete for the version current at that step and partially consistent with the earlier versions of the
+    schedule, which is what `earlier_versions_consistent` provides along every executor history) it never raises; every
+    met pair was stored in some version; and once the fog is complete every key that kept its value through all versions
+    has been met with that value -/
+theorem raw_walk_finds_stable_and_sound (H : Bytes → Bytes) (hlen : ∀ b, (H b).length = 32) (sched : List StepT)
+    (hok : SchedOk H sched) :
+    (crunDR H cstartD (sched.map StepT.toD) = .ok none) ∨
+    ∃ s' : CState, crunDR H cstartD (sched.map StepT.toD) = .ok (some (toCD H s')) ∧
+      (∀ k v, (k, v) ∈ s'.met → ∃ e ∈ sched, v ≠ [] ∧ get e.t k = v) ∧
+      (s'.fog = [] → ∀ k val, val ≠ [] → (∀ e ∈ sched, get e.t k = val) → (k, val) ∈ s'.met) :=
+  crunDR_is_tree_run H hlen sched hok
 
 end PyTrie.Props.C09
